@@ -4,5 +4,6 @@ CONSTANTS
  Hi = 40
  MaxN = 12
  MaxGroup = 8
+ MaxNest = 3
 INVARIANTS CaseOK EmitInv
 CHECK_DEADLOCK FALSE
